@@ -1,9 +1,11 @@
 package c20
 
 import (
+	"bytes"
 	"encoding/hex"
 	"encoding/json"
 	"fmt"
+	"math"
 	"os"
 	"os/exec"
 	"runtime"
@@ -12,6 +14,10 @@ import (
 	"sync"
 	"syscall"
 	"time"
+
+	"github.com/ethereum/go-ethereum/common/hexutil"
+
+	evmtypes "github.com/EscanBE/evermint/v12/x/evm/types"
 
 	"verifharness/vh"
 )
@@ -336,6 +342,11 @@ func runChild(run *vh.Run, j job, start int) (next int, finished bool) {
 		}
 		wit["goroutine_dump_excerpt"] = interestingGoroutines(out)
 		wit["goroutine_dump_head"] = head(outFile, 3000)
+		if known := unboundedGasLoop(entry, input, out, wit); known != "" {
+			// the same call site and input characteristic as the recorded finding, whatever generator class produced it
+			wit["generated_as_class"] = firstClass
+			firstClass = known
+		}
 		run.Violation("hang:"+entry+":"+firstClass, j.Label, wit)
 		run.Count("child_hangs", 1)
 	} else {
@@ -347,6 +358,57 @@ func runChild(run *vh.Run, j job, start int) (next int, finished bool) {
 		return j.Count, true // died during setup: nothing to resume
 	}
 	return idx + 1, false
+}
+
+// unboundedGasLoop recognises, from the request itself and the goroutine dump, a hanging EthCall / EstimateGas query
+// that spins in the EVM interpreter with an effectively unbounded gas allowance (>= 10^10 gas: far beyond what the
+// stall threshold can burn). It returns the class of the corresponding recorded finding, or "".
+func unboundedGasLoop(entry string, input []byte, dump string, wit map[string]any) string {
+	if entry != "Query" || !strings.Contains(dump, "vm.(*EVMInterpreter).Run") {
+		return ""
+	}
+	if b, _ := wit["blocked"].(bool); b {
+		return ""
+	}
+	parts := bytes.SplitN(input, []byte("\n"), 4)
+	if len(parts) != 4 {
+		return ""
+	}
+	path := string(parts[0])
+	var class, frame string
+	switch path {
+	case "/ethermint.evm.v1.Query/EthCall":
+		class, frame = "query-ethcall-unbounded-gas-loop", "keeper.Keeper.EthCall"
+	case "/ethermint.evm.v1.Query/EstimateGas":
+		class, frame = "query-estimategas-unbounded-gas-loop", "keeper.Keeper.EstimateGas"
+	default:
+		return ""
+	}
+	if !strings.Contains(dump, frame) {
+		return ""
+	}
+	var req evmtypes.EthCallRequest
+	if err := req.Unmarshal(parts[3]); err != nil {
+		return ""
+	}
+	var args struct {
+		Gas *hexutil.Uint64 `json:"gas"`
+	}
+	if err := json.Unmarshal(req.Args, &args); err != nil {
+		return ""
+	}
+	allowance := uint64(math.MaxUint64)
+	if args.Gas != nil {
+		allowance = uint64(*args.Gas)
+	}
+	if req.GasCap != 0 && allowance > req.GasCap {
+		allowance = req.GasCap
+	}
+	wit["gas_allowance_of_the_request"] = allowance
+	if allowance < 10_000_000_000 {
+		return ""
+	}
+	return class
 }
 
 // evidenceClass maps a full cpc class (with method and route) to the class used in signatures.
